@@ -739,6 +739,58 @@ def replay(ctx, path):
     return 0
 
 
+
+# ----------------------------------------------------------------------------- //line directives
+# The go tool resolves //go:embed patterns in the directory that really contains the .go file; //line directives only move
+# reported positions.  LoadDirectives derives the package directory from a token position, so generated sources carry //line
+# directives naming a file in another directory (relative, parent-relative, absolute), the same directory, or a directory
+# that does not exist — before the package clause, after the imports, inside the directive's comment group, between
+# directive and var, in /*line*/ form.  Every named directory holds *twin* files (same names, different bytes), so that a
+# resolution in the wrong directory yields different bytes rather than an error.
+L_TREE = {b"a": N("f", data=b"top-level a"), b"b": N("f", data=b"top-level b"), b"schema.txt": N("f", data=b"top-level schema"),
+          b"d": N("d", children={b"f": N("f", data=b"top d/f"), b".g": N("f", data=b"top d/.g")})}
+
+
+def twin_tree(ch, tag):
+    out = {}
+    for k, n in ch.items():
+        if n.kind == "f":
+            out[k] = N("f", data=n.data + b" ~twin in " + tag)
+        elif n.kind == "d":
+            out[k] = N("d", children=twin_tree(n.children, tag))
+        else:
+            out[k] = n
+    return out
+
+
+def line_sources(abs_twin):
+    """[(note, full source text)]"""
+    A = abs_twin.decode()
+    targets = [("relative directory", "gen/expr.y"), ("parent-relative directory", "../ltwin/expr.y"), ("absolute directory", A + "/expr.y"),
+               ("absolute directory that does not exist", "/nonexistent-c16/dir/expr.y"), ("same directory", "expr.y"),
+               ("same directory with ./", "./expr.y"), ("relative path back into the same directory", "gen/../expr.y")]
+    body = "//go:embed a\nvar S string\n\n//go:embed schema.txt d\nvar F embed.FS\n\n//go:embed all:d b\nvar G embed.FS\n"
+    imp = "import \"embed\"\n\n"
+    out = [("no //line directive", "package p\n\n" + imp + body)]
+    for what, t in targets:
+        out.append(("//line before the package clause: " + what, "//line %s:2\npackage p\n\n%s%s" % (t, imp, body)))
+        out.append(("/*line*/ before the package clause: " + what, "/*line %s:2:1*/package p\n\n%s%s" % (t, imp, body)))
+        out.append(("//line after a file comment, before the package clause: " + what,
+                    "// Code generated by goyacc -o p.go %s. DO NOT EDIT.\n\n//line %s:1\npackage p\n\n%s%s" % (t, t, imp, body)))
+        out.append(("//line after the imports: " + what, "package p\n\n%s//line %s:10\n\n%s" % (imp, t, body)))
+        out.append(("//line at the head of the directive's comment group: " + what,
+                    "package p\n\n%s//line %s:20\n//go:embed a\nvar S string\n\n// F holds the schema.\n//line %s:30\n//go:embed schema.txt d\nvar F embed.FS\n\n//go:embed all:d b\nvar G embed.FS\n" % (imp, t, t)))
+        # go/parser compares //line-adjusted line numbers when it attaches a doc comment, so a //line between the directive and
+        # the var detaches the directive for goembed (known finding); the other variables must still come from the right directory
+        out.append(("//line between the directive and its var: " + what,
+                    "package p\n\n%s//go:embed a\nvar S string\n\n//go:embed schema.txt d\n//line %s:30\nvar F embed.FS\n\n//go:embed all:d b\nvar G embed.FS\n" % (imp, t)))
+        out.append(("//line before the package clause and again before each var: " + what,
+                    "//line %s:2\npackage p\n\n%s//line %s:40\n//go:embed a\nvar S string\n\n//line p.go:12\n//go:embed schema.txt d\nvar F embed.FS\n\n//go:embed all:d b\nvar G embed.FS\n" % (t, imp, t)))
+    # an error must stay an error whatever the //line says (the twin directory HAS the file)
+    out.append(("pattern missing here but present in the named directory", "//line gen/expr.y:2\npackage p\n\n" + imp + "//go:embed onlyingen.txt\nvar F embed.FS\n"))
+    return out
+
+
 # ----------------------------------------------------------------------------- the check
 def run(ctx, args):
     if getattr(args, "replay", None):
@@ -840,6 +892,23 @@ def run(ctx, args):
             f.write(src)
         dcases.append({"kind": "directive", "name": name, "body": body, "dir": pdir, "class": d_class_of(body), "declared": cls})
 
+    # //line directives: twin files in every directory a //line may name
+    abs_twin = os.path.join(outside, b"labs")
+    materialise(abs_twin, twin_tree(L_TREE, b"the absolute directory"))
+    materialise(os.path.join(mod, b"ltwin"), twin_tree(L_TREE, b"../ltwin"))
+    lcases = []
+    for i, (note, text) in enumerate(line_sources(abs_twin)):
+        name = "l%04d" % i
+        pdir = os.path.join(mod, name.encode())
+        lt = dict(L_TREE)
+        gen_ch = twin_tree(L_TREE, b"gen/")
+        gen_ch[b"onlyingen.txt"] = N("f", data=b"only in gen")
+        lt[b"gen"] = N("d", children=gen_ch)
+        materialise(pdir, lt)
+        with open(os.path.join(pdir, b"p.go"), "wb") as f:
+            f.write(text.encode())
+        lcases.append({"kind": "line-directive", "name": name, "note": note, "src": text, "dir": pdir})
+
     # package directory whose path contains glob metacharacters (the tree sits in a second module)
     mod2 = os.path.join(scratch, b"w[x]y", b"m2")
     os.makedirs(mod2)
@@ -855,13 +924,13 @@ def run(ctx, args):
             f.write(src)
         mcases.append({"kind": "pkgdir-meta", "name": name, "pats": pl, "dir": pdir, "tree": D_TREE})
 
-    ctx.log("materialised %d tree cases, %d directive cases, %d pkgdir cases" % (len(cases), len(dcases), len(mcases)))
+    ctx.log("materialised %d tree cases, %d directive cases, %d //line cases, %d pkgdir cases" % (len(cases), len(dcases), len(lcases), len(mcases)))
 
     # ---------------------------------------------------------------- reference toolchain
     G = go_list(mod.decode("utf-8", "surrogateescape"))
     G2 = go_list(mod2.decode("utf-8", "surrogateescape"))
     bad_build, build_err = go_build_status(mod.decode("utf-8", "surrogateescape"),
-                                           sorted(n for n, o in G.items() if n.startswith("d") and not o.get("Error")))
+                                           sorted(n for n, o in G.items() if n[0] in "dl" and n[1:].isdigit() and not o.get("Error")))
     ctx.log("go list: %d + %d packages; go build: %d packages rejected" % (len(G), len(G2), len(bad_build)))
     if os.environ.get("C16_DEBUG"):
         ctx.log(build_err[:1500])
@@ -885,6 +954,8 @@ def run(ctx, args):
         lr.append("resolve %s %s" % (hexs(c["dir"]), " ".join(hexs(p) for p in c["pats"])))
     for c in dcases:
         lr.append("load %s" % hexs(os.path.join(c["dir"], b"p.go")))
+    for c in lcases:
+        lr.append("loadd %s" % hexs(os.path.join(c["dir"], b"p.go")))
 
     # function-level correspondence lines (same text for real and model)
     fl = []
@@ -928,12 +999,15 @@ def run(ctx, args):
     if len(real) != len(lr) + len(fl) + len(il) or len(model) != len(lm) * 2 + len(fl) + len(il):
         raise RuntimeError("driver/harness died: real %d model %d\n%s\n%s" % (len(real), len(model), err[-2000:], err2[-2000:]))
     nT = len(cases)
-    r_tree, r_m, r_d = real[:nT], real[nT:nT + len(mcases)], real[nT + len(mcases):len(lr)]
+    r_tree, r_m = real[:nT], real[nT:nT + len(mcases)]
+    r_d = real[nT + len(mcases):nT + len(mcases) + len(dcases)]
+    r_l = real[nT + len(mcases) + len(dcases):len(lr)]
     m_tree, m1_tree = model[:nT], model[nT:2 * nT]
     r_fn, m_fn = real[len(lr):len(lr) + len(fl)], model[2 * nT:2 * nT + len(fl)]
     r_il, m_il = real[len(lr) + len(fl):], model[2 * nT + len(fl):]
 
     stats = {"tree": 0, "tree:real-ok": 0, "tree:real-err": 0, "tree:model-unsupported": 0, "directive": len(dcases), "pkgdir-meta": len(mcases)}
+    stats["cl:sources with //line naming another directory / same directory / none"] = "k%4 = 1,3 / 2 / 0"
     mism, specmism, specval_mism = [], 0, []
     nontrivial = set()
 
@@ -1068,6 +1142,52 @@ def run(ctx, args):
                        (c["body"], "rejects" if real_rejects else sorted(rfiles), "rejects" if go_rejects else gres[1]),
                        {"go_source_after_imports": c["body"], "real": r, "go_list": gres, "go_build_rejects": c["name"] in bad_build})
 
+    # ---------------------------------------------------------------- //line directives: names AND bytes against the real directory
+    for i, c in enumerate(lcases):
+        g = G.get(c["name"])
+        if g is None:
+            raise RuntimeError("go list did not report package " + c["name"])
+        gres = g_result(g)
+        go_rejects = gres[0] == "err" or c["name"] in bad_build
+        r = r_l[i]
+        nontrivial.add("line:" + c["src"])
+        why = None
+        detached = False
+        if r == "parse-error":
+            why = "go/parser rejects the generated source (generator problem)"
+        elif (r == "err") != go_rejects:
+            why = "real %s, go %s" % ("rejects" if r == "err" else "accepts", "rejects" if go_rejects else "accepts")
+        elif r != "err":
+            got = {}
+            rest = r[2:].strip()
+            if rest != ".":
+                for part in rest.split(";"):
+                    var, fl_ = part.split("=")
+                    for nd in fl_.split("+"):
+                        if nd:
+                            n_, d_ = nd.split(":")
+                            got.setdefault(unhexs(n_), set()).add(unhexs(d_))
+            names = sorted(n.decode("utf-8", "surrogateescape") for n in got)
+            if names != gres[1]:
+                why = "file lists differ: real %r, go list %r" % (names, gres[1])
+                if re.search(r"^//go:embed[^\n]*\n(//line |/\*line )", c["src"], flags=re.M) and names == sorted(set(gres[1]) - {"schema.txt"}):
+                    detached = True       # exactly the variable whose directive is followed by //line is missing
+            if why is None or detached:
+                for n_, ds in got.items():
+                    with open(os.path.join(c["dir"], n_), "rb") as f:
+                        want = f.read()
+                    if ds != {want}:
+                        why = "bytes of %r: real %r, the package directory's file has %r" % (n_, sorted(ds), want)
+                        detached = False
+                        break
+        stats["line-directive"] = stats.get("line-directive", 0) + 1
+        if why:
+            specmism += 1
+            report("directive:line-directive-between-embed-and-var" if detached else "line-directive:" + c["src"],
+                   "LoadDirectives resolves patterns elsewhere than the Go toolchain (%s): %s" % (c["note"], why),
+                   {"note": c["note"], "go_source": c["src"], "package_dir_tree": tree_json(L_TREE), "twin_directories": ["gen/", "../ltwin/", "<scratch>/outside/labs/"],
+                    "real": r, "go_list": gres, "go_build_rejects": c["name"] in bad_build})
+
     # ---------------------------------------------------------------- function-level correspondence + embed.FS table spec
     fn_stats = {}
     for i, line in enumerate(fl):
@@ -1116,7 +1236,22 @@ def run(ctx, args):
             first = g_result(G[c["name"]])[1][0].encode("utf-8", "surrogateescape")
             lit = render_pattern(random.Random(0), glob_escape(first))
             line = b"//go:embed " + b" ".join(render_pattern(rng, p) for p in c["pats"])
-            src = b"package p\n\nimport \"embed\"\n\n//go:embed " + lit + b"\nvar S string\n\n//go:embed " + lit + b"\nvar B []byte\n\n" + line + b"\nvar F embed.FS\n"
+            # //line directives in the compiled source: none / same directory / a twin directory with different bytes
+            # (absolute path: a relative twin inside the package directory would change what the patterns match)
+            lk = k % 4
+            if lk == 1:
+                etw = os.path.join(scratch, b"etwin", name)
+                materialise(etw, twin_tree(c["tree"], b"etwin"))
+                head = b"//line " + etw + b"/expr.y:2\n"
+            elif lk == 2:
+                head = b"//line expr.y:7\n"
+            elif lk == 3:
+                head = b"// Code generated. DO NOT EDIT.\n\n/*line /nonexistent-c16/gen/expr.y:3:1*/"
+            else:
+                head = b""
+            if re.search(rb"[\n\r:]", etw if lk == 1 else b""):
+                head = b""
+            src = head + b"package p\n\nimport \"embed\"\n\n//go:embed " + lit + b"\nvar S string\n\n//go:embed " + lit + b"\nvar B []byte\n\n" + line + b"\nvar F embed.FS\n"
             with open(os.path.join(pdir, b"p.go"), "wb") as f:
                 f.write(src)
             with open(os.path.join(pdir, b"dump.go"), "wb") as f:
@@ -1254,7 +1389,7 @@ def run(ctx, args):
         "model answers `unsupported` for names outside its unicode.IsLetter table (%d tree cases)" % stats["tree:model-unsupported"],
         "a tab directly after `//go:embed` is not generated: go/build and the Go compiler disagree on it",
     ]
-    return ctx.finish("proof", {"evaluations": nT + len(dcases) + len(mcases) + len(fl) + len(il),
+    return ctx.finish("proof", {"evaluations": nT + len(dcases) + len(lcases) + len(mcases) + len(fl) + len(il),
                                "distinct_nontrivial": len(nontrivial),
                                "rule": "tree cases count as non-trivial when they have more than one pattern or more than one resolved file "
                                        "(distinct by directory encoding + patterns); directive cases distinct by source text; function lines longer than 14 chars",
